@@ -10,5 +10,7 @@ INVARIANT MaofPointsAtMare
 INVARIANT WdlRoundTrip
 INVARIANT WdlDeviationLoss
 INVARIANT WdtConvertLaw
+INVARIANT WdtHistoryLaw
+INVARIANT WdlHistoryLaw
 INVARIANT WdlConvertLaw
 CHECK_DEADLOCK FALSE
